@@ -14,6 +14,11 @@ SKIP = "scanner->skip_depth"
 HANDLER_FIELDS = ("handle_cif_start", "handle_cif_end", "handle_block_start", "handle_block_end", "handle_frame_start",
                   "handle_frame_end", "handle_loop_start", "handle_loop_end", "handle_packet_start", "handle_packet_end",
                   "handle_item")
+GH_H = "ghost#last-handler"          # index into HANDLER_FIELDS of the handler most recently called on the path
+GH_S = "ghost#depth-store"           # node id of the last `skip_depth = c` on the path (-1: set by a callee's contract)
+GH_SH = "ghost#depth-store-handler"  # GH_H at that store
+GH_D = "ghost#depth-store-directive" # GH_C at that store
+GH_C = "ghost#directive-selected"    # the SKIP directive (-1 / -2) most recently selected by a case label or a comparison
 SYNTAX_CALLBACKS = ("keyword_callback", "dataname_callback", "whitespace_callback")
 STORING_CALLS = ("cif_create_block", "cif_create_block_internal", "cif_container_create_frame",
                  "cif_container_create_frame_internal", "cif_container_create_loop", "cif_container_set_value",
@@ -78,8 +83,13 @@ class ParserInterp(Interp):
         keep = {SKIP, "result", "loop", "block", "frame", "container", "cif", "name", "is_block", "have_packets"}
         keep |= {p["name"] for p in fn.params}
         self.tracked = {p for p in self.tracked if p in keep} | {SKIP}
-        self.always_live = {SKIP}
+        self.always_live = {SKIP, GH_H, GH_S, GH_SH, GH_D, GH_C}
         self.arith_paths = {SKIP}
+        self.cap = 6000
+        if fn.name == "parse_loop_packets":
+            # the first-value / last-value pairing of the depth changes is keyed on the column index
+            self.tracked |= {"column_index"}
+            self.arith_paths |= {"column_index"}
 
     def initial(self):
         sig = {}
@@ -101,9 +111,31 @@ class ParserInterp(Interp):
         keep_skip = (c is not None and c not in self.writers) or (c is None)
         if keep_skip:
             out = [p for p in out if p != SKIP]
-        return out
+        return [p for p in out if not p.startswith("ghost#")]
 
     def assign(self, st, node, lhs, p, av, rhs):
+        if p == "column_index" and av is not None and "column_index" in self.arith_paths:
+            lo, hi, ex = av
+            if not (av.is_const() and 0 <= av.value() <= 2):
+                # widening: any later column is just "not the first"; anything else is unknown
+                sig = dict(st.sigma)
+                if lo is not None and lo >= 1:
+                    sig[p] = AV(1, None)
+                else:
+                    sig.pop(p, None)
+                return st.with_sigma(sig)
+        if p == SKIP and node.get("k") == "asg" and node.get("op") == "=":
+            sig = dict(st.sigma)
+            sig[GH_S] = av_const(node.get("id", 0))
+            if st.sigma.get(GH_H) is not None:
+                sig[GH_SH] = st.sigma[GH_H]
+            else:
+                sig.pop(GH_SH, None)
+            if st.sigma.get(GH_C) is not None:
+                sig[GH_D] = st.sigma[GH_C]
+            else:
+                sig.pop(GH_D, None)
+            st = st.with_sigma(sig)
         if p == SKIP and av is not None:
             lo, hi, ex = av
             if (lo is not None and lo > 6) or (hi is not None and hi > 6):
@@ -113,13 +145,36 @@ class ParserInterp(Interp):
                 return st.with_sigma(sig)
         return st
 
+    def on_case(self, st, blk, cond, value):
+        sig = dict(st.sigma)
+        if value in (-1, -2):
+            sig[GH_C] = av_const(value)
+        else:
+            sig.pop(GH_C, None)
+        return st.with_sigma(sig)
+
+    def on_edge(self, st, blk, cond, truth):
+        from . import cfgq
+        t = cfgq.cmp_test(cond, lambda e: path(strip(e)) is not None or strip(e).get("k") in ("asg", "call"))
+        if t and t[1] in (-1, -2) and t[0] in ("==", "!="):
+            sig = dict(st.sigma)
+            if (t[0] == "==") == bool(truth):
+                sig[GH_C] = av_const(t[1])
+            else:
+                sig.pop(GH_C, None)
+            return st.with_sigma(sig)
+        return st
+
     def call(self, st, n, argvals):
         c = n.get("callee")
         skip = self._pre_skip
         tgt = indirect_target(n)
         if tgt in HANDLER_FIELDS:
             self.obs.append(("handler", tgt, n, skip, st))
-            return [(st, None)]
+            sig = dict(st.sigma)
+            sig[GH_H] = av_const(HANDLER_FIELDS.index(tgt))
+            sig.pop(GH_C, None)
+            return [(st.with_sigma(sig), None)]
         if tgt in SYNTAX_CALLBACKS:
             self.obs.append(("syntax", tgt, n, skip, st))
             return [(st, None)]
@@ -159,6 +214,10 @@ class ParserInterp(Interp):
                     for v in (0, 1):
                         sig = dict(st.sigma)
                         sig[SKIP] = av_const(v)
+                        if v:
+                            sig[GH_S] = av_const(-1)
+                            sig.pop(GH_SH, None)
+                            sig.pop(GH_D, None)
                         res.append((st.with_sigma(sig), None))
                     return res
                 sig = dict(st.sigma)
@@ -183,6 +242,8 @@ class ParserAnalysis:
             fn = prog.fn(name)
             it = ParserInterp(prog, fn, ctx, self.writers).run()
             self.runs[(name, ctx)] = it
+            if it.overflow:
+                raise Broken("state cap reached in the parser analysis of %s" % name)
             for (callee, cctx, node) in it.calls_out:
                 if (callee, cctx) not in self.runs:
                     work.append((callee, cctx))
